@@ -269,6 +269,25 @@ def solve_all(obligations, const_axioms, timeout_ms=10000, procs=None, seed=0, d
             outs = _POOL.map(_solve_one, tasks, chunksize=1)
         for o in outs:
             results[o['idx']] = o
+        # an `unknown` is a wall-clock verdict: it may only mean that the machine was busy.  Before it is reported,
+        # the obligation is solved again, alone (no sibling queries competing for the cores), with four times the
+        # budget.  More than a handful of unknowns means the tree itself changed: those are not all retried.
+        by_idx = {t[0]: t for t in tasks}
+        again = [i for i, o in sorted(results.items()) if o.get('result') == 'unknown' and i in by_idx
+                 and by_idx[i][3] in ('prove', 'reach')][:4]
+        for i in again:
+            idx, txt, tmo, kind, g, sd = by_idx[i]
+            t0 = time.time()
+            try:
+                sv, r = _z3_check(txt, tmo * 3, sd + 7)
+            except Exception:
+                continue
+            if r == z3.unsat:
+                results[i] = dict(results[i], result='unsat', backend='z3 (retried alone)', reason='',
+                                  seconds=round(results[i].get('seconds', 0) + time.time() - t0, 3))
+            elif r == z3.sat:
+                results[i] = dict(results[i], result='sat', backend='z3 (retried alone)', model=_model_text(sv.model()),
+                                  seconds=round(results[i].get('seconds', 0) + time.time() - t0, 3))
     final = []
     for i, ob in enumerate(obligations):
         r = results[i]
